@@ -405,7 +405,46 @@ def c11(cx):
         max_replay_quick=None)
 
 
-PROPS = {"C11": c11, "C18": c18, "C03": c03, "C02": c02, "C09": c09, "C14": c14, "C16": c16, "C20": c20, "C10": c10, "C19": c19, "C12": c12, "C01": c01, "C13": c13, "C05": c05, "C06": c06, "C07": c07, "C08": c08, "C17": c17}
+def c15(cx):
+    thorough = cx.tier == "thorough"
+    build_harness(cx, race=thorough)
+    # the sharing structure has no concurrent access to a type map; the pinned one has (negative self-test)
+    model_check(cx, "PgShare", cfg="MC_PgShare.cfg", export=False)
+    if thorough:
+        model_check(cx, "PgShare", cfg="MC_PgShare_pinned.cfg", expect_violation="NoConcurrentMapAccess is violated", export=False)
+    b = model_check(cx, "MC_C15", consts=({"NC": 3, "Plans": "PlansThorough"} if thorough else None), timeout=3000)
+    subsample(cx, b, 4000 if thorough else 400)
+    sample_behaviours(cx, b)
+    trace, crash = play(cx, b, "multi", cmd="multi", extra=["-proj", "C15"])
+    if crash and "DATA RACE" in crash["output"]:
+        # auxiliary monitor (thorough): the race detector saw unsynchronised access in the library
+        race = [l for l in crash["output"].splitlines() if "/repo/" in l or "psql-wire" in l][:6]
+        d = os.path.join("/verif", "replays", cx.pid, "race-%d" % cx.seed)
+        os.makedirs(d, exist_ok=True)
+        open(os.path.join(d, "race.txt"), "w").write(crash["output"])
+        cx.violations.append(("data race reported by the Go race detector: " + " | ".join(x.strip() for x in race), d))
+        crash = None
+        rejected = []
+    else:
+        rejected = [] if crash else validate(cx, trace, "Trace_PgConn")
+    judge(cx, b, trace, rejected, crash, "Trace_PgConn", play_cmd="multi", play_extra=["-proj", "C15"])
+    count_distinct(cx, b)
+    cx.cov["trusted_base"] = TB_SRV + (["Go race detector (auxiliary monitor, thorough tier)"] if thorough else [])
+    return finish(cx, "model_checking",
+                  "TLC checks on PgShare that, with one type map per connection, no two connections are ever inside the "
+                  "same map and the global parameter map is only read (the one-map-per-server design of the pinned tree is "
+                  "kept as a negative self-test). A scheduler model generates every interleaving of the sends of 2 (thorough: "
+                  "3) concurrent sessions and of the releases of statement functions parked at a gate; each schedule runs on "
+                  "one real server with sessions that deliberately use the same statement and portal names, different users, "
+                  "databases and row types; the recording of every connection - preamble, ParameterStatus values, replies, "
+                  "which definition ran with which parameters, what every callback saw in its context - is validated by TLC "
+                  "against the single-connection specification PgConn, i.e. it is what that client's traffic produces on a "
+                  "server serving it alone; the type maps each connection encoded with (verif hook around Encode) must be its "
+                  "own. Thorough: the harness is built with -race and any report naming the library is a violation.",
+                  ASSUME_CONN + ["the race detector is an auxiliary monitor outside the TLA+ family (DESIGN 4 C15)"])
+
+
+PROPS = {"C15": c15, "C11": c11, "C18": c18, "C03": c03, "C02": c02, "C09": c09, "C14": c14, "C16": c16, "C20": c20, "C10": c10, "C19": c19, "C12": c12, "C01": c01, "C13": c13, "C05": c05, "C06": c06, "C07": c07, "C08": c08, "C17": c17}
 
 
 def replay(cx, path):
